@@ -24,8 +24,19 @@ PICK = {
 }
 
 
+def own_jobs():
+    from vlib import Job
+    return [
+        Job('loop_set_category', 'loop_h.c', entry='harness_set_category', enforce='cif_loop_set_category', tus=['loop.c'],
+            flags=['--malloc-may-fail', '--malloc-fail-null', '--memory-leak-check'], reach=['reserved', 'set', 'oom', 'sql-error'], min_obligations=30, timeout=1200, mem_gb=16, replay=False,
+            trusted=['SQLite transaction model (stubs/sqlite_model.h)', 'cif_u_strdup modelled by a malloc-based body for strings of at most one unit'],
+            clauses=['no allocation made by the call is left behind on any return path (memory-leak check; the caller owns only the handle and its category)',
+                     'reserved category refused, handle untouched on early errors', 'no invalid free, no use after free']),
+    ]
+
+
 def jobs():
-    out = []
+    out = own_jobs()
     for mod, names in PICK.items():
         for j in mod.jobs():
             if j.name in names:
